@@ -345,6 +345,64 @@ def run(tier, seed, replay=None):
                     break
                 if attempt == 2:
                     rep.fail("C10: %s: in three runs out of three datagrams were lost (last run: %d never reached the origin, %d replies never came back)" % (what, lost, noreply), rp)
+        # destinations of both address families through ONE association, on every path (the exit's socket must reach both, and
+        # label each reply with the address that replied)
+        import c06 as _c06
+        import struct as _struct
+        import threading as _threading
+        g6m = _c06.global_ipv6()
+        if g6m:
+            try:
+                s6m = socket.socket(socket.AF_INET6, socket.SOCK_DGRAM)
+                s6m.bind((g6m, 0))
+            except OSError:
+                s6m = None
+            if s6m is not None:
+                def _echo6():
+                    while True:
+                        try:
+                            d_, a_ = s6m.recvfrom(70000)
+                            s6m.sendto(d_, a_)
+                        except OSError:
+                            return
+                _threading.Thread(target=_echo6, daemon=True).start()
+                h4 = b"\x00\x00\x00\x01" + socket.inet_aton(LOOP) + _struct.pack(">H", w.origin.port)
+                h6 = b"\x00\x00\x00\x04" + socket.inet_pton(socket.AF_INET6, g6m) + _struct.pack(">H", s6m.getsockname()[1])
+                for pth in uw.PATHS:
+                    for attempt in (0, 1):
+                        bad_m = None
+                        try:
+                            am = uw.SocksUdpClient(w.socks[pth])
+                        except OSError as e:
+                            bad_m = "associate: %s" % e
+                            continue
+                        if not am.ok:
+                            bad_m = "associate refused: %s" % am.reply.hex()
+                        else:
+                            for i, (hdr, fam_name) in enumerate(((h4, "IPv4"), (h6, "IPv6"), (h4, "IPv4"))):
+                                pay = b"mixed-%s-%d-%d" % (pth.encode(), attempt, i)
+                                all_extra.append(pay)
+                                d_ = b""
+                                try:
+                                    am.udp.sendto(hdr + pay, am.relay)
+                                    am.udp.settimeout(2)
+                                    d_, _a = am.udp.recvfrom(70000)
+                                except (socket.timeout, OSError):
+                                    pass
+                                if d_[3:] != hdr[3:] + pay:
+                                    bad_m = "datagram %d (to an %s destination) of one association: reply %s" % (i + 1, fam_name, d_.hex()[:60] or "missing")
+                                    break
+                        am.close()
+                        if bad_m is None:
+                            break
+                    n_eval += 1
+                    dist["mixed-family|" + pth] += 3
+                    if bad_m:
+                        rep.fail("C10: SOCKS5 UDP association via %s addressing IPv4, IPv6 and IPv4 destinations in turn: %s" % (pth, bad_m), {"kind": "failing-input", "scenario": "mixed-family association", "path": pth})
+                try:
+                    s6m.close()
+                except OSError:
+                    pass
         # a neighbour that does not read: session A (CONNECT udp client, TCP) asks a chatty origin for 12000 datagrams and
         # stops reading; session B shares the upstream path (one QUIC connection in datagram mode).  B's datagrams must go on
         # being delivered and echoed - A's backlog is A's problem (its datagrams may be dropped, as on any UDP socket)
